@@ -730,7 +730,10 @@ class TraitCompound(TraitHandler):
             try:
                 post_setattr(object, name, value)
                 return
-            except TraitError:
+            except Exception:
+                # The value is not one this handler maps (for example a
+                # KeyError from Map.mapped_value): try the next handler, as
+                # mapped_value() does.
                 pass
         setattr(object, name + "_", value)
 
